@@ -275,7 +275,35 @@ def step (c impl : String) : String :=
           else if !isDec srv && allV2.all isDec then some s!"server failed with {srv} without fallback although every weighted-graph run decided ({allV2})"
           else if srv = "F" && kind = "userset" && cr ≠ "-" && !logs.contains cr then some s!"server did not log the breaking-change reason {cr}"
           else none
-      match objViol.orElse (fun _ => usViol) |>.orElse (fun _ => shapeViol) |>.orElse (fun _ => valViol) |>.orElse (fun _ => srvViol) with
+      -- (5) command-level fallback (CheckQueryV2.Execute with a fallback Checker, as BatchCheck wires it) and the
+      -- terminal-error classification
+      let cfb := norm (i.get "cfb")
+      let cfbn := i.get "cfbn"
+      let term := i.get "term"
+      let mcls := looks.flatMap (fun l => modelClasses w l)
+      let cmdViol : Option String :=
+        if cfb = "?" then none
+        else if cfbn = "0" && !mcls.contains cfb then
+          some s!"command-level run without fallback answered {cfb}, the weighted-graph engine can answer {mcls}"
+        else if cfbn ≠ "0" && cfb ≠ v1 && !v1alts.contains cfb then
+          some s!"command-level fallback answered {cfb}, the default engine answers {v1}"
+        else if cfbn ≠ "0" && isDec d1 && mcls.all isDec then
+          some s!"command-level run fell back although the weighted-graph engine decided ({d1})"
+        else if term ≠ "-" && term ≠ "?" then
+          -- after the server's error mapping: condition and request-validation errors are terminal, the request-shape
+          -- errors, graph errors and panics are not
+          let wantTerminal := d1 = "Econd" || d1 = "Einvalid" || d1 = "Edeadline"
+          let isTerm : Bool := term.endsWith "1"
+          if isTerm != wantTerminal then
+            some s!"IsV2CheckTerminalError classifies the mapped error {d1} as terminal={isTerm}"
+          else none
+        else none
+      -- every run failed with a non-terminal error: the server has to fall back
+      let fbViol : Option String :=
+        if !fb && !allV2.isEmpty && allV2.all (fun x => x.startsWith "Eshape" || x = "Epanic" || x = "Eother") then
+          some s!"every weighted-graph run failed with a non-terminal error ({allV2}) but the server did not fall back"
+        else none
+      match objViol.orElse (fun _ => cmdViol) |>.orElse (fun _ => fbViol) |>.orElse (fun _ => usViol) |>.orElse (fun _ => shapeViol) |>.orElse (fun _ => valViol) |>.orElse (fun _ => srvViol) with
       | some why => specViol why
       | none =>
         if !exact then modelDiff ("|".intercalate (modelClasses w 2))
